@@ -84,7 +84,7 @@ class SList(Sym):
     ``parts``: None for a base sequence, or -- for a concatenation -- the list of its pieces
     ``('elem', value)`` / ``('base', SList)`` in order (structural normal form, used by str.join).
     """
-    __slots__ = ('length', 'elem', 'uid', 'cache', 'seq', 'immutable', 'parts')
+    __slots__ = ('length', 'elem', 'uid', 'cache', 'seq', 'immutable', 'parts', 'elem_ty')
 
     def __init__(self, length, elem, uid, seq=None):
         self.length = length
@@ -93,6 +93,7 @@ class SList(Sym):
         self.cache = {}
         self.seq = seq
         self.immutable = True
+        self.elem_ty = None        # shape of the elements, when created from a ListOf shape
         self.parts = None
 
     def __repr__(self):
